@@ -5,7 +5,10 @@ from common.check import PropertyCheck, hx, unhx
 
 from mitmproxy import connection, exceptions, http
 from mitmproxy.addons.savehar import SaveHar
-from mitmproxy.io import FlowReader
+from mitmproxy.io import FlowReader, read_flows_from_paths
+from mitmproxy.test import taddons
+from common.paths import WORK
+import os
 from mitmproxy.io.har import request_to_flow
 from mitmproxy.net import encoding as mencoding
 from mitmproxy.net.http.headers import assemble_content_type, infer_content_encoding, parse_content_type
@@ -603,12 +606,43 @@ class Check(PropertyCheck):
             except Exception: i = "fail"
             fl = flows[len(tie)]
             tie.append(f"E {entry_view(e)} I {i} G {bits_str(guards[len(tie)])} P {predictions(fl)}")
+        def read(fn):
+            reset_cache()
+            try:
+                return {"stage": "ok", "err": None, "back": [view(f) for f in fn()]}
+            except exceptions.FlowReadException as e:
+                c = e.__context__
+                return {"stage": "import-failed", "err": type(c).__name__ if c else "FlowReadException", "back": None}
+        # route "file": the save.har command (export_har) writes a FILE, read_flows_from_paths reads it
+        d = os.path.join(WORK, "c41"); os.makedirs(d, exist_ok=True)
+        path = os.path.join(d, f"rt-{os.getpid()}.har")
         try:
-            back = list(FlowReader(io.BytesIO(data)).stream())
-        except exceptions.FlowReadException as e:
-            c = e.__context__
-            return {"orig": orig, "stage": "import-failed", "err": type(c).__name__ if c else "FlowReadException", "tie": tie, "guards": guards, "refs": refs}
-        return {"orig": orig, "stage": "ok", "back": [view(f) for f in back], "tie": tie, "guards": guards, "refs": refs}
+            SaveHar().export_har(flows, path)
+            file_bytes = open(path, "rb").read()
+        except Exception as e:
+            return {"orig": orig, "stage": "export-failed", "err": type(e).__name__, "tie": tie, "guards": guards, "refs": refs, "routes": {}}
+        rfile = read(lambda: read_flows_from_paths([path]))
+        # route "mem": make_har -> json.dumps -> FlowReader on the bytes (what the harness did before round 6)
+        routes = {"mem": read(lambda: list(FlowReader(io.BytesIO(data)).stream()))}
+        # route "hardump": the hardump option, written by SaveHar.done()
+        path2 = os.path.join(d, f"rt-{os.getpid()}-dump.har")
+        try:
+            sa = SaveHar()
+            with taddons.context(sa) as tctx:
+                tctx.configure(sa, hardump=path2)
+                for f in flows: sa.response(f)
+                sa.done()
+            dump_bytes = open(path2, "rb").read()
+            if dump_bytes != file_bytes:
+                routes["hardump"] = read(lambda: read_flows_from_paths([path2]))
+        except Exception as e:
+            routes["hardump"] = {"stage": "export-failed", "err": type(e).__name__, "back": None}
+        finally:
+            for p_ in (path, path2):
+                try: os.unlink(p_)
+                except OSError: pass
+        return {"orig": orig, "stage": rfile["stage"], "err": rfile["err"], "back": rfile["back"], "tie": tie, "guards": guards,
+                "refs": refs, "routes": routes}
 
     def model_lines(self, case):
         return [flow_line(build_flow(fc)) for fc in case["flows"]]
@@ -624,23 +658,33 @@ class Check(PropertyCheck):
     # for POST, PUT and PATCH requests, response status code, response header fields and decoded response body, in the
     # same order."  One failure string per named field: "<field>[i]: ...".
     def oracle(self, case, obs):
-        if obs["stage"] != "ok":
-            return [f"{obs['stage']}: {obs['err']}"]
-        o, b = obs["orig"], obs["back"]
+        """the statement, applied to every export/import route: the save.har FILE read back with read_flows_from_paths
+        (failures without suffix), the in-memory make_har/json/FlowReader route (@mem) and, when its file differs from
+        the save.har file, the hardump-option file (@hardump)"""
+        fails = self.oracle_route(obs, obs["stage"], obs.get("err"), obs.get("back"), "")
+        for name, r in (obs.get("routes") or {}).items():
+            fails += self.oracle_route(obs, r["stage"], r["err"], r["back"], "@" + name)
+        return fails
+
+    def oracle_route(self, obs, stage, err, back, sfx):
+        if stage != "ok":
+            return [f"{stage}{sfx}: {err}"]
+        o, b = obs["orig"], back
         if len(o) != len(b):
-            return [f"count: exported {len(o)} flows, imported {len(b)}"]
+            return [f"count{sfx}: exported {len(o)} flows, imported {len(b)}"]
         fails = []
         for i, (x, y) in enumerate(zip(o, b)):
-            if x["method"] != y["method"]: fails.append(f"method[{i}]: {x['method']} -> {y['method']}")
-            if x["url"] != y["url"]: fails.append(f"url[{i}]: {unhx(x['url'])!r} -> {unhx(y['url'])!r}")
-            if x["ver"] in QUANTIFIED_VERSIONS and x["ver"] != y["ver"]: fails.append(f"version[{i}]: {x['ver']} -> {y['ver']}")
-            if no_cl(x["rh"]) != no_cl(y["rh"]): fails.append(f"request-headers[{i}]: {no_cl(x['rh'])} -> {no_cl(y['rh'])}")
+            t = f"[{i}]{sfx}"
+            if x["method"] != y["method"]: fails.append(f"method{t}: {x['method']} -> {y['method']}")
+            if x["url"] != y["url"]: fails.append(f"url{t}: {unhx(x['url'])!r} -> {unhx(y['url'])!r}")
+            if x["ver"] in QUANTIFIED_VERSIONS and x["ver"] != y["ver"]: fails.append(f"version{t}: {x['ver']} -> {y['ver']}")
+            if no_cl(x["rh"]) != no_cl(y["rh"]): fails.append(f"request-headers{t}: {no_cl(x['rh'])} -> {no_cl(y['rh'])}")
             if unhx(x["method"]) in (b"POST", b"PUT", b"PATCH") and x["rbody"] != y["rbody"]:
-                fails.append(f"request-body[{i}]: {x['rbody']} -> {y['rbody']}")
-            if x["status"] != y["status"]: fails.append(f"status[{i}]: {x['status']} -> {y['status']}")
+                fails.append(f"request-body{t}: {x['rbody']} -> {y['rbody']}")
+            if x["status"] != y["status"]: fails.append(f"status{t}: {x['status']} -> {y['status']}")
             if names_lower(x["sh"]) != names_lower(y["sh"]):
-                fails.append(f"response-headers[{i}]: {names_lower(x['sh'])} -> {names_lower(y['sh'])}")
-            if x["sbody"] != y["sbody"]: fails.append(f"response-body[{i}]: {x['sbody']} -> {y['sbody']}")
+                fails.append(f"response-headers{t}: {names_lower(x['sh'])} -> {names_lower(y['sh'])}")
+            if x["sbody"] != y["sbody"]: fails.append(f"response-body{t}: {x['sbody']} -> {y['sbody']}")
         return fails
 
     # ------------------------------------------------------------------ generator
@@ -661,15 +705,18 @@ class Check(PropertyCheck):
     CODINGS = [b"gzip", b"deflate", b"br", b"zstd", b"identity", b"bogus", b"GZIP"]
     HDR_POOL = [(b"Accept", b"*/*"), (b"accept", b"text/html"), (b"X-A", b"1"), (b"X-A", b"2"), (b"x-a", b"3"),
                 (b"User-Agent", b"ua/1.0 (x; y)"), (b"Cookie", b"a=b; c=d"), (b"Cookie", b"e=f"),
-                (b"X-Empty", b""), (b"X-Utf8", "é€".encode()), (b"X-Latin1", b"caf\xe9"), (b"X-Sp", b"a  b\tc"),
+                (b"X-Empty", b""), (b"X-Utf8", "é€".encode()), (b"X-Latin1", b"caf\xe9"), (b"X-Astral", "\U0001f600 \U00010348".encode()),
+                (b"X-SurrBytes", b"a\xed\xb3\xa9b"), (b"X-Hi", b"\x80\xff\xfe"), (b"X-Trunc", b"ok \xe2\x82"), (b"X-Sp", b"a  b\tc"),
                 (b"Referer", b"http://example.com/?q=\"x\""), (b"X-Bs", b"a\\b"), (b"Connection", b"keep-alive")]
     SHDR_POOL = [(b"Server", b"nginx"), (b"Set-Cookie", b"a=b; Path=/; HttpOnly"), (b"Set-Cookie", b"c=d; Secure; SameSite=Lax"),
                  (b"set-cookie", b"e=f"), (b"Location", b"/x"), (b"Vary", b"Accept"), (b"vary", b"Cookie"),
-                 (b"X-Utf8", "ü".encode()), (b"X-Latin1", b"\xfc"), (b"Cache-Control", b"no-cache"), (b"X-Empty", b""),
+                 (b"X-Utf8", "ü".encode()), (b"X-Latin1", b"\xfc"), (b"X-Astral", "\U0001f680".encode()), (b"X-SurrBytes", b"\xed\xa0\x80"),
+                 (b"X-Hi", b"\xc0\xaf \xf5"), (b"Cache-Control", b"no-cache"), (b"X-Empty", b""),
                  (b"Date", b"Mon, 01 Jan 2024 00:00:00 GMT")]
     TEXTS = ["hello", "hello world\n" * 12, "héllo wörld €", "{\"a\": [1, 2, \"é\"]}", "a=1&b=2&c=%C3%A9",
              "<html><head><meta charset=\"latin-1\"></head><body>café</body></html>", "@charset \"utf-8\";\nbody{}",
-             "<?xml version=\"1.0\" encoding=\"iso-8859-1\"?><a>é</a>", "﻿bom text", "日本語のテキスト", "x" * 300, "tab\tcr\r\nlf"]
+             "<?xml version=\"1.0\" encoding=\"iso-8859-1\"?><a>é</a>", "﻿bom text", "日本語のテキスト", "x" * 300, "tab\tcr\r\nlf", "astral \U0001f600 text \U00010348 end",
+             "mostly ascii text with an astral \U0001f4a9 char " * 3]
 
     def gen_mislabelled(self, rng):
         """(content-type, body): declared charset x actual bytes that are (a) valid in the declared charset,
@@ -852,12 +899,18 @@ class Check(PropertyCheck):
         class".  The bits computed from the code's own library answers (obs["guards"]) are only compared with the
         Lean guard by the tie."""
         tag = failure.split(":", 1)[0]
+        stage, err, back = obs["stage"], obs.get("err"), obs.get("back")
+        if "@" in tag:
+            tag, route = tag.split("@", 1)
+            R = (obs.get("routes") or {}).get(route)
+            if R is None: return None
+            stage, err, back = R["stage"], R["err"], R["back"]
         if tag.startswith("import-failed"):
             # F-C41c: url.parse raises on the exported URL of some flow, with the predicted exception
-            return "F-C41c" if any(obs.get("err") in r["urlfail"] for r in obs["refs"]) else None
-        if "[" not in tag or obs["stage"] != "ok": return None
+            return "F-C41c" if stage == "import-failed" and any(err in r["urlfail"] for r in obs["refs"]) else None
+        if "[" not in tag or stage != "ok": return None
         field, idx = tag[:-1].split("["); i = int(idx)
-        x, y, r = obs["orig"][i], obs["back"][i], obs["refs"][i]
+        x, y, r = obs["orig"][i], back[i], obs["refs"][i]
         body_ok = y["sbody"] == x["sbody"] or (y["sbody"] is not None and y["sbody"] == r["pred_sbody"])
         if field == "version":
             # F-C41a: exactly "HTTP/2.0" -> "HTTP/1.1"
